@@ -20,15 +20,35 @@
                   run on the case by Obs/C03Run.v).
    [known_case]   the case deviates from the property only in the recorded shapes.
 
+   A listing call (Repositories / Tags / Referrers) returns an iterator VALUE; the harness may
+   iterate it several times on both sides.  A complete pass made again over the same value is a
+   further entry of the history (the same operation once more: the iterator of the registry
+   called directly yields the same listing again, so must the stack's, and the backend is asked
+   from the caller's start point again).  A pass the caller stops at its k-th yield is recorded
+   with the complete pass that follows it ([c_pre]): it must yield the first k yields of that
+   complete pass on either side, and the backend must have been asked nothing (an iterator that
+   remembers) or page requests that begin at the caller's start point and advance through the
+   listing.
+
+   Three forms of case:
+   [CHist]  a history over ocimem (everything above).
+   [CFree]  a history over another registry (the harness's algstore: ocimem's manifests and
+            tags, blobs under sha256 / sha384 / sha512 digests): [obs_ok] is the same
+            specification (it never looks at a model); the model side is the prediction of the
+            theorems of Props/C03Stack.v (transparency over every conforming backend): no
+            verdict is bad.
+   [CBig]   one push of a content too large for a case file, and reads of it, directly and
+            through the stack; contents are named by length and SHA-256.
+
    An operation that mentions an ill-formed name (repository, tag or digest, by the validity
    tables of the real ociref / go-digest code) is judged only on "fails through the stack, or
    same success / failure" and "the backend saw only calls with the caller's arguments". *)
 From Coq Require Import String.
 From OCI Require Export Model.Transparent.
 From OCI Require Import Proofs.Transparent.
-From OCI Require Import Obs.C03Run.
+From OCI Require Export Obs.C03Run.
 
-Record case := {
+Record hist := {
   c_cfg : scfg;
   c_main : bool;                  (* informative: every name in the history is well-formed *)
   c_strict : bool;                (* report every failure of obs_ok (corpus cases of known findings) *)
@@ -42,7 +62,8 @@ Record case := {
   c_more : list (bytes * bytes * bytes);   (* (algorithm, content, hex) for sha384 / sha512 digests the history mentions *)
   c_bufsz : nat;                  (* the buffer the harness reads BlobReaders with *)
   c_vstat : list Z;               (* per operation: status of the HTTPError in the stack's error, 0 = none *)
-  c_stack : bool                  (* evaluate the composed model on this case *)
+  c_stack : bool;                 (* evaluate the composed model on this case *)
+  c_pre : list (list prepass)     (* per operation: the passes over its iterator that the caller stopped, made before the complete one *)
 }.
 
 (* ---- one operation in its context ---- *)
@@ -78,10 +99,10 @@ Fixpoint contexts (cfg : scfg) (st : list event * list (N * bytes)) (t : tstate)
   | _, _, _, _ => None
   end.
 
-Definition final_log (c : case) : list event :=
+Definition final_log (c : hist) : list event :=
   fst (fold_left (fun st od => log_step st (fst od) (snd od)) (combine (c_ops c) (c_direct c)) ([], [])).
 
-Definition case_contexts (c : case) : option (list sctx) :=
+Definition case_contexts (c : hist) : option (list sctx) :=
   contexts (c_cfg c) ([], []) tinit (c_ops c) (c_direct c) (c_via c) (c_trace c).
 
 Inductive verdict := VOk | VKnown (f : finding) | VBad.
@@ -128,22 +149,67 @@ Definition judge_snap (l : list event) (e : op * oresult * oresult) : verdict :=
   if rel_direct l o a b then VOk
   else match known_shape o a b with Some f => VKnown f | None => VBad end.
 
-Definition verdicts (c : case) : list verdict :=
+(* ---- passes over an iterator that the caller stopped ---- *)
+
+Definition is_iter (o : op) : bool :=
+  match o with Repositories _ | Tags _ _ | Referrers _ _ _ => true | _ => false end.
+
+(* what a consumer that returns false at its k-th yield sees of an iterator that yields [r] *)
+Definition cut_obs (k : nat) (r : oresult) : oresult :=
+  match r with
+  | OList l e => if (k <=? length l)%nat then OList (firstn k l) None else r
+  | ODescs l e => if (k <=? length l)%nat then ODescs (firstn k l) None else r
+  | _ => r
+  end.
+
+(* the backend during a stopped pass: nothing at all (the iterator holds the listing), or calls
+   of the operation's kind with the caller's repository whose start points are the caller's and
+   then items of the listing, advancing *)
+Definition pre_trace_ok (o : op) (v : oresult) (tr : list bcall) : bool :=
+  match tr with
+  | [] => true
+  | _ => keys_ok (op_keys [] o) tr
+         && match o with
+            | Repositories _ | Tags _ _ => listing_collapsed o v tr
+            | _ => true
+            end
+  end.
+
+(* [d], [v]: what the complete pass that follows yielded directly and through the stack *)
+Definition pre_ok (o : op) (d v : oresult) (p : prepass) : bool :=
+  is_iter o && (1 <=? pp_k p)%nat
+  && oresult_eqb (pp_direct p) (cut_obs (pp_k p) d)
+  && oresult_eqb (pp_via p) (cut_obs (pp_k p) v)
+  && pre_trace_ok o v (pp_trace p).
+
+Fixpoint pre_checks (ops : list op) (ds vs : list oresult) (pres : list (list prepass)) : list bool :=
+  match ops, ds, vs, pres with
+  | [], [], [], [] => []
+  | o :: ops', d :: ds', v :: vs', ps :: pres' => map (pre_ok o d v) ps ++ pre_checks ops' ds' vs' pres'
+  | _, _, _, _ => [false]
+  end.
+
+Definition case_pre_checks (c : hist) : list bool := pre_checks (c_ops c) (c_direct c) (c_via c) (c_pre c).
+
+Definition verdict_of_bool (b : bool) : verdict := if b then VOk else VBad.
+
+Definition verdicts (c : hist) : list verdict :=
   match case_contexts c with
   | Some xs => map (fun x => judge (c_cfg c) (names_wf (c_orc c) (x_op x)) x) xs
                ++ map (judge_snap (final_log c)) (c_snap c)
+               ++ map verdict_of_bool (case_pre_checks c)
   | None => [VBad]
   end.
 
-Definition obs_ok (c : case) : bool := forallb is_vok (verdicts c).
-Definition known_case (c : case) : bool := forallb not_vbad (verdicts c) && existsb is_vknown (verdicts c).
+Definition obs_ok_h (c : hist) : bool := forallb is_vok (verdicts c).
+Definition known_case_h (c : hist) : bool := forallb not_vbad (verdicts c) && existsb is_vknown (verdicts c).
 
 (* ---- the model side ---- *)
 
-Definition snap_ops (c : case) : list op := map (fun e => fst (fst e)) (c_snap c).
-Definition snap_a (c : case) : list oresult := map (fun e => snd (fst e)) (c_snap c).
+Definition snap_ops (c : hist) : list op := map (fun e => fst (fst e)) (c_snap c).
+Definition snap_a (c : hist) : list oresult := map (fun e => snd (fst e)) (c_snap c).
 
-Definition model_results (c : case) : list result :=
+Definition model_results (c : hist) : list result :=
   snd (run (mem_step (c_orc c) false) init (c_ops c ++ snap_ops c)).
 
 Definition mjudge (cfg : scfg) (main : bool) (x : sctx) : bool :=
@@ -170,13 +236,14 @@ Definition mjudge_snap (l : list event) (e : op * oresult * oresult) : bool :=
   let '(o, a, b) := e in
   (well_shaped a && oresult_eqb b (snap_view o a)) || rel_direct l o a b.
 
-Definition old_agrees (c : case) : bool :=
+Definition old_agrees (c : hist) : bool :=
   agrees_all (c_direct c ++ snap_a c) (model_results c)
   && match case_contexts c with
      | Some xs => forallb (fun x => mjudge (c_cfg c) (names_wf (c_orc c) (x_op x)) x) xs
      | None => false
      end
-  && forallb (mjudge_snap (final_log c)) (c_snap c).
+  && forallb (mjudge_snap (final_log c)) (c_snap c)
+  && forallb (fun b => b) (case_pre_checks c).
 
 (* ---- the composed model of the stack (Model/Stack.v through Obs/C03Run.v) ----
 
@@ -189,20 +256,20 @@ Definition old_agrees (c : case) : bool :=
 
 (* operations whose answer / trace the composed model is not compared on (each with its reason;
    the harness counts them: harness/cmd/c03/cover.go mirrors this function) *)
-Definition stack_model_covers (c : case) (o : op) : bool :=
+Definition stack_model_covers (c : hist) (o : op) : bool :=
   (* PushBlob with a descriptor size (> 0) different from the content length (> 0): net/http's
      transport notices the wrong body length while it is sending, so the server may or may not
      have received (part of) the body when the client gives up - a race in the real stack
      (recorded finding push-size); the model's transport refuses the request before sending *)
   negb (push_size_mismatch o).
 
-Definition stack_agrees (c : case) : bool :=
+Definition stack_agrees (c : hist) : bool :=
   negb (c_stack c)
-  || (let '(m, ms) := stack_run (c_cfg c) (c_orc c) (c_more c) (c_bufsz c) (c_ops c) in
-      steps_agree (map (stack_model_covers c) (c_ops c)) (c_via c) (c_vstat c) (c_trace c) ms
+  || (let '(m, ms) := stack_run (c_cfg c) (c_orc c) (c_more c) (c_bufsz c) (c_ops c) (map (map pp_k) (c_pre c)) in
+      steps_agree (map (stack_model_covers c) (c_ops c)) (c_via c) (c_vstat c) (c_trace c) (c_pre c) ms
       && final_agrees (c_orc c) m (c_snap c)).
 
-Definition model_agrees (c : case) : bool := old_agrees c && stack_agrees c.
+Definition model_agrees_h (c : hist) : bool := old_agrees c && stack_agrees c.
 
 (* ---- non-trivial cases ---- *)
 
@@ -243,7 +310,7 @@ Fixpoint delete_after_mount (mounted : list bytes) (ops : list op) (ds : list or
   | _, _ => false
   end.
 
-Definition nontrivial (c : case) : bool :=
+Definition nontrivial_h (c : hist) : bool :=
   existsb (fun o => existsb has_routing_word (op_names o)) (c_ops c)
   || existsb big_manifest (c_ops c)
   || existsb (fun o => opts_affect (k_opts1 (c_cfg c)) o
@@ -319,13 +386,16 @@ Proof.
   rewrite (IH H2 E). reflexivity.
 Qed.
 
-Lemma old_sound c : old_agrees c = true -> obs_ok c = true \/ known_case c = true.
+Lemma old_sound c : old_agrees c = true -> obs_ok_h c = true \/ known_case_h c = true.
 Proof.
-  unfold old_agrees, obs_ok, known_case. intros H.
+  unfold old_agrees, obs_ok_h, known_case_h. intros H.
+  apply andb_true_iff in H as [H Hp].
   apply andb_true_iff in H as [H Hs]. apply andb_true_iff in H as [_ Hx].
   apply forallb_not_vbad_split. unfold verdicts.
   destruct (case_contexts c) as [xs|]; [|discriminate].
-  rewrite forallb_app. apply andb_true_iff. split.
+  rewrite !forallb_app. apply andb_true_iff. split; [|apply andb_true_iff; split].
+  3: { rewrite forallb_forall in Hp. apply forallb_forall. intros v Hin.
+       apply in_map_iff in Hin as [b [<- Hin]]. now rewrite (Hp b Hin). }
   - rewrite forallb_forall in Hx. apply forallb_forall. intros v Hin.
     apply in_map_iff in Hin as [x [<- Hin]]. specialize (Hx x Hin).
     pose proof (mjudge_not_bad _ _ _ Hx). destruct (judge (c_cfg c) (names_wf (c_orc c) (x_op x)) x); try reflexivity. now elim H.
@@ -334,21 +404,144 @@ Proof.
     pose proof (mjudge_snap_not_bad _ _ Hs). destruct (judge_snap (final_log c) e); try reflexivity. now elim H.
 Qed.
 
-(* the comparison with the composed model is an additional requirement on [model_agrees] *)
+(* the comparison with the composed model is an additional requirement on [model_agrees_h] *)
+Lemma corr_sound_h c : model_agrees_h c = true -> obs_ok_h c = true \/ known_case_h c = true.
+Proof.
+  unfold model_agrees_h. intros H. apply andb_true_iff in H as [H _]. now apply old_sound.
+Qed.
+
+(* ---- contents too large for a case file ----
+
+   One push of a content of up to tens of MiB (the sizes at which the client's in-memory
+   threshold, a chunk size, a buffer or a body limit could cut something off) made twice -
+   directly on a fresh ocimem and through a stack over another - followed by reads of it on
+   both sides and by direct reads of both registries.  A content is named by its length and
+   its SHA-256 as computed by the harness (harness/cmd/c03/big.go). *)
+
+(* the answer of one call: success?, the OCI code of the error, the descriptor, SHA-256 and
+   length of the bytes delivered (of nothing for a call that delivers none) *)
+Record bigres := { bg_ok : bool; bg_code : ecode; bg_desc : desc; bg_sha : bytes; bg_len : Z }.
+
+(* one call made on both sides; [bc_head]: a HEAD-based resolve *)
+Record bigcall := { bc_head : bool; bc_direct : bigres; bc_via : bigres }.
+
+(* a content handed over for storing: to PushManifest (kind 0: repository, tag, media type) or to
+   an upload session (kind 1: repository, the digest committed; the content is everything
+   written to the session) *)
+Record bigpush := { bp_kind : N; bp_repo : bytes; bp_tag : bytes; bp_media : bytes; bp_digest : bytes;
+                    bp_len : Z; bp_sha : bytes }.
+
+Definition bigres_rel (head : bool) (d v : bigres) : bool :=
+  Bool.eqb (bg_ok d) (bg_ok v)
+  && (if bg_ok d
+      then desc_eqb (bg_desc d) (bg_desc v) && beqb (bg_sha d) (bg_sha v) && (bg_len d =? bg_len v)%Z
+      else code_rel head (bg_code d) (bg_code v)).
+
+Definition bigres_eqb (a b : bigres) : bool :=
+  Bool.eqb (bg_ok a) (bg_ok b)
+  && (if bg_ok a
+      then desc_eqb (bg_desc a) (bg_desc b) && beqb (bg_sha a) (bg_sha b) && (bg_len a =? bg_len b)%Z
+      else ecode_eqb (bg_code a) (bg_code b)).
+
+Definition bigcall_ok (c : bigcall) : bool := bigres_rel (bc_head c) (bc_direct c) (bc_via c).
+
+Definition bigpush_eqb (a b : bigpush) : bool :=
+  (bp_kind a =? bp_kind b)%N && beqb (bp_repo a) (bp_repo b) && beqb (bp_tag a) (bp_tag b)
+  && beqb (bp_media a) (bp_media b) && beqb (bp_digest a) (bp_digest b)
+  && (bp_len a =? bp_len b)%Z && beqb (bp_sha a) (bp_sha b).
+
+(* the names a content arrived with are the caller's (whatever the content) *)
+Definition bigpush_names (a b : bigpush) : bool :=
+  (bp_kind a =? bp_kind b)%N && beqb (bp_repo a) (bp_repo b) && beqb (bp_tag a) (bp_tag b)
+  && beqb (bp_media a) (bp_media b) && beqb (bp_digest a) (bp_digest b).
+
+(* the specification: the push and every read answer alike on both sides (success / failure,
+   code, descriptor, bytes); the backend was handed the caller's content, once, with the
+   caller's names, when the push succeeded through the stack (only the caller's names when it
+   failed); both registries read alike afterwards *)
+Definition big_ok (want : bigpush) (push : bigcall) (got : list bigpush) (reads : list bigcall)
+           (snap : list (bigres * bigres)) : bool :=
+  bigcall_ok push
+  && (if bg_ok (bc_via push) then list_eqb bigpush_eqb got [want] else forallb (bigpush_names want) got)
+  && forallb bigcall_ok reads
+  && forallb (fun ab => bigres_eqb (fst ab) (snd ab)) snap.
+
+Inductive case :=
+  | CHist (h : hist)
+  | CFree (h : hist)
+  (* The model's side of a big content is not an evaluation but the theorems of Props/C03Stack.v
+     (per-method and history-level transparency of the composed model over ocimem's model, for
+     contents of every length - C03_transparent_PushManifest_ok, C03_transparent_GetTag...,
+     C03_mem_history_transparent, two hops): the push succeeds on ocimem and every answer through
+     the stack is the direct one. *)
+  | CBig (cfg : scfg) (want : bigpush) (push : bigcall) (got : list bigpush) (reads : list bigcall)
+         (snap : list (bigres * bigres)).
+
+Definition obs_ok (c : case) : bool :=
+  match c with
+  | CHist h | CFree h => obs_ok_h h
+  | CBig _ want push got reads snap => big_ok want push got reads snap
+  end.
+
+Definition known_case (c : case) : bool :=
+  match c with
+  | CHist h | CFree h => known_case_h h
+  | CBig _ _ _ _ _ _ => false
+  end.
+
+Definition model_agrees (c : case) : bool :=
+  match c with
+  | CHist h => model_agrees_h h
+  | CFree h => forallb not_vbad (verdicts h)
+  | CBig _ want push got reads snap =>
+      bg_ok (bc_direct push) && forallb (fun r => bg_ok (bc_direct r)) reads
+      && big_ok want push got reads snap
+  end.
+
+(* a free-backend history says something when a content under a digest that is not a sha256
+   one was read back through the stack; a big case when the push went through *)
+Definition non_sha256 (d : bytes) : bool := negb (beqb (firstn 7 d) (s "sha256:")).
+Definition nontrivial (c : case) : bool :=
+  match c with
+  | CHist h => nontrivial_h h
+  | CFree h =>
+      existsb (fun ov => match fst ov, snd ov with
+                         | (GetBlob _ d | GetBlobRange _ d _ _), OOk (RRead _ _) => non_sha256 d
+                         | _, _ => false
+                         end) (combine (c_ops h) (c_via h))
+  | CBig _ _ push _ _ _ => bg_ok (bc_via push)
+  end.
+
 Lemma corr_sound c : model_agrees c = true -> obs_ok c = true \/ known_case c = true.
 Proof.
-  unfold model_agrees. intros H. apply andb_true_iff in H as [H _]. now apply old_sound.
+  destruct c as [h|h|cfg want push got reads snap]; cbn [model_agrees obs_ok known_case].
+  - apply corr_sound_h.
+  - intros H. unfold obs_ok_h, known_case_h. now apply forallb_not_vbad_split.
+  - intros H. apply andb_true_iff in H as [_ H]. now left.
 Qed.
 
 (* ---- what the driver reads ---- *)
 
 (* obs_ok c || (negb (c_strict c) && known_case c), computing the verdicts once *)
-Definition eff_ok (c : case) : bool :=
+Definition eff_ok_h (c : hist) : bool :=
   let vs := verdicts c in
   forallb is_vok vs || (negb (c_strict c) && forallb not_vbad vs && existsb is_vknown vs).
 
-Lemma eff_ok_spec c : eff_ok c = obs_ok c || (negb (c_strict c) && known_case c).
-Proof. unfold eff_ok, obs_ok, known_case. now rewrite andb_assoc. Qed.
+Definition strict (c : case) : bool :=
+  match c with CHist h | CFree h => c_strict h | CBig _ _ _ _ _ _ => true end.
+
+Definition eff_ok (c : case) : bool :=
+  match c with
+  | CHist h | CFree h => eff_ok_h h
+  | CBig _ _ _ _ _ _ => obs_ok c
+  end.
+
+Lemma eff_ok_spec c : eff_ok c = obs_ok c || (negb (strict c) && known_case c).
+Proof.
+  destruct c as [h|h|]; cbn [eff_ok obs_ok known_case strict].
+  1,2: unfold eff_ok_h, obs_ok_h, known_case_h; now rewrite andb_assoc.
+  now rewrite orb_false_r.
+Qed.
 
 Definition mismatches (cs : list case) : list (N * bool) :=
   bad_from 0 (fun c => if model_agrees c then None else Some (eff_ok c)) cs.
@@ -361,22 +554,24 @@ Definition bad_obs (cs : list case) : list (N * bool) :=
   bad_from 0 (fun c => if eff_ok c then None else Some (model_agrees c)) cs.
 
 (* diagnostics *)
-Definition where_bad (c : case) : list (N * verdict) :=
+Definition hist_of (c : case) : option hist := match c with CHist h | CFree h => Some h | _ => None end.
+Definition where_bad (c : hist) : list (N * verdict) :=
   bad_from 0 (fun v => match v with VOk => None | _ => Some v end) (verdicts c).
-Definition where_model (c : case) : option N := first_bad 0 (c_direct c ++ snap_a c) (model_results c).
-Definition where_mjudge (c : case) : list (N * bool) :=
+Definition where_model (c : hist) : option N := first_bad 0 (c_direct c ++ snap_a c) (model_results c).
+Definition where_mjudge (c : hist) : list (N * bool) :=
   match case_contexts c with
   | Some xs => bad_from 0 (fun x => if mjudge (c_cfg c) (names_wf (c_orc c) (x_op x)) x then None else Some true) xs
   | None => [(0%N, false)]
   end.
-Definition where_stack (c : case) :=
-  let '(m, ms) := stack_run (c_cfg c) (c_orc c) (c_more c) (c_bufsz c) (c_ops c) in
-  (steps_bad 0 (map (stack_model_covers c) (c_ops c)) (c_via c) (c_vstat c) (c_trace c) ms,
+Definition where_stack (c : hist) :=
+  let '(m, ms) := stack_run (c_cfg c) (c_orc c) (c_more c) (c_bufsz c) (c_ops c) (map (map pp_k) (c_pre c)) in
+  (steps_bad 0 (map (stack_model_covers c) (c_ops c)) (c_via c) (c_vstat c) (c_trace c) (c_pre c) ms,
    final_agrees (c_orc c) m (c_snap c)).
-Definition stack_says (c : case) (i : nat) :=
-  nth_error (snd (stack_run (c_cfg c) (c_orc c) (c_more c) (c_bufsz c) (c_ops c))) i.
-Definition slack_uses (c : case) : N :=
+Definition stack_says (c : hist) (i : nat) :=
+  nth_error (snd (stack_run (c_cfg c) (c_orc c) (c_more c) (c_bufsz c) (c_ops c) (map (map pp_k) (c_pre c)))) i.
+Definition slack_uses (c : hist) : N :=
   match case_contexts c with
   | Some xs => countb (fun x => used_slack (c_cfg c) (x_log x) (x_op x) (x_d x) (x_v x)) xs
   | None => 0%N
   end.
+
